@@ -19,8 +19,15 @@ def run(res, a):
         pass
     conc.run_conc(res, "C10", a.seed, a.tier)
     conc.run_lockstep(res, "C10", a.seed, a.tier)
+    # the heap program under the lockstep: C10conc.absorb_no_dangling_heap is a theorem about exactly this protocol
+    conc.run_lockstep(res, "C10", a.seed, a.tier, mode="lockheap", key="corr:tfree-lockstep-heap", kinds=conc.KINDS["C10"]["heap"])
     res.cov["rule"] = ("sequential: API traces creating, filling, deleting and destroying several heaps in any order with set_default, checked by the shadow "
                        "table (blocks of a deleted heap stay valid and are attributed to the backing heap, destroy drops exactly its own blocks, "
                        "mi_heap_contains_block / mi_heap_check_owned agree with the shadow attribution, default falls back) and by replaying the dumped "
                        "page queues against the Coq heap model; concurrent: scheduler harness mode heap (mi_heap_delete / mi_heap_collect while other "
-                       "virtual threads free blocks of that heap). distinct = distinct traces + schedules")
+                       "virtual threads free blocks of that heap); schedule-lockstep of that heap program (s_conc mode lockheap): every atomic "
+                       "access to xthread_free / xheap / thread_delayed_free of mi_heap_delete (mi_heap_absorb: first drain, xheap store and "
+                       "_mi_page_use_delayed_free spin per page, final _mi_heap_delayed_free_all, mi_heap_free), mi_heap_collect, mi_heap_new and of the "
+                       "concurrent remote frees must be a transition of Model/TFree.v (OpHeapDelete = frames HD2/HD3/HD4 is followed without "
+                       "decomposition), inv_b evaluated on the synchronised states; histogram of the model transitions used: "
+                       "input_distribution.lockheap_model_transitions. distinct = distinct traces + schedules")
